@@ -9,3 +9,14 @@ claim(
     TB, "call-graph reachability of stated-belief aborts + enum producer/consumer coverage + loop-progress path rule + bounded-encoding dataflow",
     "DESIGN.md §2 C03",
 )
+claim(
+    "C08", "other",
+    "Construction-site discipline of the state-tree diff, decided on MIR: copy patches are built in exactly one function, only "
+    "under the true edge of the shape predicate, from the two path_to_address results; both shape predicates (nodes_match and "
+    "the hand-written PartialEq used by the no-change fast path) are false off the diagonal of node kinds and compare both "
+    "payloads on it; the LCS table recurrence reads exactly its canonical predecessors; each backtrack step moves the cursors "
+    "consistently with the result it pushes; destination buffer is a fresh zeroed vector of the new size; equality short-cut "
+    "precedes diffing; child offsets are prefix sums. Optimality of the greedy backtrack is not decided.",
+    TB, "symbolic path enumeration of loop bodies and match arms over MIR (recurrence/cursor-delta templates), who-may-construct, dominance of guards",
+    "DESIGN.md §2 C08",
+)
